@@ -109,6 +109,18 @@ def make_math(obj: dict, bounds):
                 s += z * z
             return s
 
+    elif fam == "offset":
+        # a smooth bowl on top of a huge constant: distinct values that agree to 9+ significant digits
+        off = float(obj.get("off", 1e9))
+
+        def g(x):
+            xs = x.tolist()
+            s = 0.0
+            for i in rng:
+                z = (xs[i] - c[i]) / R[i]
+                s += z * z
+            return off + s
+
     elif fam == "pit":
         # a small region in which the value is infinite in the *good* direction (legal, if degenerate)
         rad = float(obj.get("rad", 0.15))
@@ -140,6 +152,8 @@ def g_min(obj: dict, bounds) -> float:
     fam = obj["fam"]
     if fam == "constant":
         return float(obj.get("v", 0.0))
+    if fam == "offset":
+        return float(obj.get("off", 1e9))
     if fam == "pit":
         return -math.inf
     if fam == "linear":
@@ -163,6 +177,8 @@ def gen_objective(rng, d: int, fam: str | None = None) -> dict:
         obj["q"] = rng.choice([4.0, 8.0, 30.0])
     elif fam == "constant":
         obj["v"] = rng.choice([0.0, 1.5, -2.0])
+    elif fam == "offset":
+        obj["off"] = rng.choice([1e6, 1e9, -1e9])
     elif fam == "pit":
         obj["rad"] = rng.choice([0.1, 0.2, 0.3])
     elif fam == "face":
